@@ -6,9 +6,9 @@ for log in sys.argv[1:]:
     cur = None
     buf = {}
     for line in open(log):
-        m = re.match(r'#### r3-(C\d\d)-(\d)\s*$', line)
+        m = re.match(r'#### r([34])-(C\d\d)-(\d)\s*$', line)
         if m:
-            cur = '%s-mut%s-r3' % (m.group(1), m.group(2))
+            cur = '%s-mut%s-r%s' % (m.group(2), m.group(3), m.group(1))
             buf[cur] = []
             continue
         if line.startswith('####'):
